@@ -651,7 +651,26 @@ HAND_PLAIN_DOCS = [
 ]
 
 
+def _hand_heading_docs() -> Dict[str, mdgen.GenDoc]:
+    """Multi-line setext first headings with what the page must show (full oracle applies)."""
+    out: Dict[str, mdgen.GenDoc] = {}
+    for lines, info in mdgen.MULTILINE_HEADINGS:
+        for tail in ("", "\ntext {2} more\n\n    1 egg\n"):
+            text = "\n".join(lines) + "\n====\n" + tail
+            gd = mdgen.GenDoc(text=text, plain=text.replace("{2}", mdgen.sentinel(0)), comparable=True)
+            if tail:
+                gd.braces.append(mdgen.BraceOcc("2", [2], True, "text"))
+            gd.headings.append(info)
+            out[text] = gd
+    return out
+
+
+HAND_HEADING_DOCS = _hand_heading_docs()
+
+
 def _one_hand(text: str) -> Optional[Case]:
+    if text in HAND_HEADING_DOCS:
+        return doc_case(text, HAND_HEADING_DOCS[text], ["hand-heading"])
     if text in HAND_PLAIN_DOCS:
         return doc_case(text, mdgen.GenDoc(text=text, plain=text, comparable=True), ["hand-plain"])
     return doc_case(text, None, ["hand"])
@@ -868,7 +887,7 @@ def suites(tier: str, seed: int) -> List[Suite]:
     n = 260 if tier == "quick" else 4000
     cases = pmap(_one_doc, [(seed, i) for i in range(n)])
     md.cases = [x for x in cases if x is not None]
-    md.cases += [x for x in (_one_hand(t) for t in HAND_DOCS + mdgen.IMAGE_ALT_DOCS + HAND_PLAIN_DOCS) if x is not None]
+    md.cases += [x for x in (_one_hand(t) for t in HAND_DOCS + mdgen.IMAGE_ALT_DOCS + HAND_PLAIN_DOCS + list(HAND_HEADING_DOCS)) if x is not None]
     rng = random.Random(seed * 7919 + 13)
     nb = 600 if tier == "quick" else 8000
     seen = set()
